@@ -171,11 +171,17 @@ class _FakeSock:
     def connect(self, addr):
         self.net.opened.append(addr)
 
+    gate = None       # part 'senders': parks the calling thread before every send
+
     def send(self, data, *flags):
+        if _FakeSock.gate is not None:
+            _FakeSock.gate.before_send()
         self.net.sent += bytes(data)
         return len(data)
 
     def sendall(self, data, *flags):
+        if _FakeSock.gate is not None:
+            _FakeSock.gate.before_send()
         self.net.sent += bytes(data)
 
     def recv(self, n, *flags):
@@ -807,7 +813,8 @@ def _router_exec(env, seq, ops, mode):
     def arrive(j):
         s = seq[j]
         if s == 'X':
-            st['tainted'] = True
+            # a rejected packet has been consumed whole: the packets behind it are demanded like any other (the stream
+            # must stay in step)
             return
         arrived[s].append(j)
         if s in created and not st['tainted']:
@@ -1268,6 +1275,137 @@ def _serial_in_batch(env, drv, router, rx, ln, pat, noise):
 # job construction
 # ---------------------------------------------------------------------------------------------------
 
+# ---------------------------------------------------------------------------------------------------
+# part: concurrent senders (every interleaving of the socket send calls of 2-3 application threads)
+# ---------------------------------------------------------------------------------------------------
+
+class _SendGate:
+    """Baton for real sender threads: each blocks before every socket send until the controller picks it."""
+
+    def __init__(self, choices):
+        import threading
+        self.choices = list(choices)
+        self.k = 0
+        self.ns = []
+        self.cv = threading.Condition()
+        self.waiting = {}      # thread index -> True while parked at a send
+        self.done = set()
+        self.go = None
+        self.ids = {}
+
+    def before_send(self):
+        import threading
+        i = self.ids.get(threading.get_ident())
+        if i is None:
+            return
+        with self.cv:
+            self.waiting[i] = True
+            self.cv.notify_all()
+            while self.go != i:
+                self.cv.wait(5.0)
+            self.go = None
+            del self.waiting[i]
+
+    def finished(self, i):
+        with self.cv:
+            self.done.add(i)
+            self.cv.notify_all()
+
+    def drive(self, n):
+        """Controller: whenever every live sender is parked, let one of them (chosen by the schedule) do its send."""
+        import time
+        while True:
+            with self.cv:
+                t0 = time.time()
+                while self.go is not None or len(self.waiting) + len(self.done) < n:
+                    if not self.cv.wait(0.5) and time.time() - t0 > 20:
+                        raise HarnessError('sender threads did not reach a send point')
+                if len(self.done) == n:
+                    return
+                cand = sorted(self.waiting)
+                c = self.choices[self.k] if self.k < len(self.choices) else 0
+                self.ns.append(len(cand))
+                self.k += 1
+                if c >= len(cand):
+                    raise HarnessError('sender schedule diverged')
+                self.go = cand[c]
+                self.cv.notify_all()
+
+
+def _senders_exec(env, drv, pkts, choices):
+    import threading
+    from cflib.crtp.crtpstack import CRTPPacket
+    net = env.net
+    del net.sent[:]
+    gate = _SendGate(choices)
+    errs = []
+
+    def body(i, h, pl):
+        gate.ids[threading.get_ident()] = i
+        try:
+            drv.send_packet(_mk_crtp(CRTPPacket, h, pl, 'ctor'))
+        except Exception as e:  # noqa
+            errs.append(repr(e))
+        finally:
+            gate.finished(i)
+    _FakeSock.gate = gate
+    try:
+        ths = [threading.Thread(target=body, args=(i, h, pl), daemon=True) for i, (h, pl) in enumerate(pkts)]
+        for t in ths:
+            t.start()
+        gate.drive(len(pkts))
+        for t in ths:
+            t.join(10.0)
+    finally:
+        _FakeSock.gate = None
+    return bytes(net.sent), gate.ns, errs
+
+
+def part_senders(job):
+    sets, = job
+    p = Partial()
+    with _quiet(), _Env(hook_queue=True) as env:
+        drv = env.tcp_mod.TcpDriver()
+        drv.connect('tcp://verif.invalid:5000', None, env.link_error)
+        for pkts in sets:
+            stack = [()]
+            nsched = 0
+            while stack:
+                ch = stack.pop()
+                sent, ns, errs = _senders_exec(env, drv, pkts, ch)
+                nsched += 1
+                p.transitions += len(ns)
+                p.states += 1
+                for i in range(len(ch), len(ns)):
+                    for alt in range(1, ns[i]):
+                        stack.append(tuple(ch) + (0,) * (i - len(ch)) + (alt,))
+                # the byte stream must be a sequence of whole frames, one per packet, each intact (order is free)
+                probs = []
+                frames, pos = [], 0
+                while pos + 2 <= len(sent):
+                    ln = struct.unpack('<H', sent[pos:pos + 2])[0]
+                    frames.append(sent[pos + 2:pos + 2 + ln])
+                    pos += 2 + ln
+                want = sorted(bytes([h & 0xF3]) + bytes(pl) for h, pl in pkts)           # CRTP header bits 2-3 are free
+                got = sorted(bytes([f[2] & 0xF3]) + bytes(f[3:]) for f in frames if len(f) >= 3)
+                if errs:
+                    probs.append(('out_raises', 'send_packet raised %s' % errs[0]))
+                elif pos != len(sent) or got != want:
+                    probs.append(('frames_interleaved', 'socket carried %s, which is not one whole frame per packet (CRTP bodies '
+                                  'wanted %r, got %r)' % (sent.hex(), [w.hex() for w in want], [g.hex() for g in got])))
+                else:
+                    for f in frames:
+                        _check_tcp_out(struct.pack('<H', len(f)) + f, f[2], bytes(f[3:]), probs)
+                p.case(key=('senders', tuple(pkts), tuple(ch)), outcome=('senders', len(ns), bool(probs)))
+                p.add('traces_validated_against_impl', 1)
+                for clause, text in probs:
+                    p.violation('senders:%s:%dthreads' % (clause, len(pkts)),
+                                '%d threads call TcpDriver.send_packet at once (send order %r): %s' % (len(pkts), ch, text),
+                                {'part': 'senders', 'pkts': [[h, pl.hex()] for h, pl in pkts], 'choices': list(ch)})
+            p.add('sender_schedules', nsched)
+    return p
+
+
 def _shapes(max_total, max_packets):
     """All tuples of payload lengths with 1..max_packets packets and 4*k + sum <= max_total."""
     out = []
@@ -1387,7 +1525,10 @@ def run(ck):
     cj, bj, tj = _codec_jobs(quick), _big_jobs(quick), _tunnel_jobs(quick)
     # one sampling job of every part first, then the rest (big ones early)
     firsts = [cj[0], fjobs[0], bj[[j[1][3] for j in bj].index(True)], rjobs[0], tj[0], tj[1], cj[-8]]
-    rest = [j for j in fjobs + rjobs + bj + tj + cj if j not in firsts]
+    sets2 = [((0x5d, b'\x01\x02'), (0x21, b'')), ((0xf3, bytes(range(30))), (0x00, b'\xff'))]
+    sets3 = [((0x5d, b'\x01\x02'), (0x21, b''), (0x10, b'abc'))]
+    sj = [('senders', (sets2,)), ('senders', (sets3,))]
+    rest = [j for j in fjobs + rjobs + bj + tj + cj + sj if j not in firsts]
     jobs = firsts + rest
     ck.pmap(_dispatch, jobs)
     ck.exhaustive = True
